@@ -48,3 +48,12 @@ Example C17_example :
   /\ defvjp_route (make_dict (Some [2; 0]%nat) [ERule 5; ERule 6]) [0; 2]%nat
      = Some [ORule 6 0; ORule 5 2].
 Proof. vm_compute. repeat split; reflexivity. Qed.
+
+(* the registration model is what the translator reads off core.defvjp on this run (coq/gen/GenExtend.v) *)
+From AG Require Import ExtendTie.
+From AGGen Require Import GenExtend.
+Theorem C17_defvjp_model_follows_source :
+  (forall argnums makers, make_dict argnums makers = gen_make_dict argnums makers)
+  /\ (forall d argnums, defvjp_route d argnums = gen_defvjp_route d argnums).
+Proof. exact (conj make_dict_follows_source defvjp_route_follows_source). Qed.
+Print Assumptions C17_defvjp_model_follows_source.
